@@ -87,8 +87,10 @@ def alternative_or_next(
     current_node = SymbolicExpression._current_parent_()
     if isinstance(current_node._parent_, (Alternative, Next)):
         current_node = current_node._parent_
-    elif (
-        isinstance(current_node._parent_, ExceptIf)
+    # climb to the top of the chain of branches that were already attached to the current node, otherwise the new branch
+    # would replace the branch that was attached last.
+    while (
+        isinstance(current_node._parent_, (Alternative, Next, ExceptIf))
         and current_node is current_node._parent_.left
     ):
         current_node = current_node._parent_
@@ -105,5 +107,8 @@ def alternative_or_next(
     new_branch._node_.weight = type_
     new_conditions_root._parent_ = prev_parent
     if isinstance(prev_parent, BinaryOperator):
-        prev_parent.right = new_conditions_root
+        if prev_parent.left is current_node:
+            prev_parent.left = new_conditions_root
+        else:
+            prev_parent.right = new_conditions_root
     return new_conditions_root.right
